@@ -78,6 +78,18 @@ Step(e) ==
     [] e.op = "callerError"  -> CallerError
     [] e.op = "commit"       -> Commit
 
+\* events as the harness renders them: store:type:id:payload
+PlStr(pl) == IF Len(pl) = 0 THEN "" ELSE IF Len(pl) = 2 THEN pl[1] \o "|" \o pl[2]
+             ELSE pl[1] \o "|" \o pl[2] \o "|" \o pl[3] \o "|" \o (IF pl[4] THEN "true" ELSE "false")
+EvStr(ev) == ev.st \o ":" \o ev.ty \o ":" \o ev.id \o ":" \o PlStr(ev.pl)
+Count(seq, x) == Cardinality({i \in 1..Len(seq) : seq[i] = x})
+SameBag(a, b) == Len(a) = Len(b) /\ \A x \in ToSet(a) \cup ToSet(b) : Count(a, x) = Count(b, x)
+\* what the listeners were handed by the end of the line: everything the committed transaction produced, exactly once -- and nothing
+\* while a transaction is open or after it was rolled back
+EventsAgree(e) == IF e.op = "commit" /\ last'.res = "ok"
+                  THEN SameBag([i \in 1..Len(last'.evs) |-> EvStr(last'.evs[i])], e.evs) /\ e.txc = last'.txc
+                  ELSE e.evs = << >> /\ e.txc = 0
+
 Differs(e) == LET j == JDb(e.db) IN {k \in DOMAIN db' : db'[k] # j[k]}
 
 Agrees(e) ==
@@ -86,6 +98,7 @@ Agrees(e) ==
   /\ (e.res = "ok" /\ e.op \in {"addLink", "removeLink", "rcInc", "rcDec", "rcSet"}) => ToString(last'.ret) = e.ret
   /\ e.db.extra = << >>
   /\ db' = JDb(e.db)
+  /\ EventsAgree(e)
 
 TraceInit == Init /\ l = 1
 
@@ -98,7 +111,8 @@ TraceStep == /\ l <= Len(Trace) /\ Trace[l].op # "reset"
              /\ IF Agrees(Trace[l]) THEN TRUE
                 ELSE PrintT(<<"REJECT", l, Trace[l].op, "model", [res |-> last'.res, app |-> last'.app, ret |-> last'.ret],
                               "logged", [res |-> Trace[l].res, cls |-> Trace[l].cls, ret |-> Trace[l].ret],
-                              "extra", Trace[l].db.extra, "state-differs-in", Differs(Trace[l])>>) /\ FALSE
+                              "extra", Trace[l].db.extra, "state-differs-in", Differs(Trace[l]),
+                              "events", IF EventsAgree(Trace[l]) THEN "agree" ELSE "differ">>) /\ FALSE
              /\ l' = l + 1
 
 TraceNext == TraceReset \/ TraceStep
